@@ -544,6 +544,26 @@ def gen_case(seed, tier, i):
                 g.query()
         g.force_crowd = False
         n_mut = min(n_mut, 3)
+    free_pkg = [n for n in world.PKG + world.TOP if n not in g.mods and n not in g.lib_names]
+    if free_pkg and rng.random() < 0.12:
+        # a new package is typed before it is saved: the buffer is the future <pkg>/__init__.py (its
+        # directory does not exist yet) and already refers to a sub-module; then directory, __init__.py
+        # and the sub-module are written; from then on everything inside the package must be found
+        P = rng.choice(free_pkg)
+        code0 = 'from .sa import func as rel_f\nrel_f(1)\nfrom . import sa\nsa.func\n'
+        q0 = {'op': 'query', 'code': code0, 'path': '%s/__init__.py' % P, 'project': g.project,
+              'probes': [{'m': 'get_signatures', 'l': 2, 'c': 6}, {'m': 'complete', 'l': 4, 'c': 3},
+                         {'m': 'infer', 'l': 4, 'c': 5}]}
+        g.ops.append(q0)
+        g.advance(rng.choice([SEC, 4 * SEC, 61 * SEC]))
+        g.create(P, 'package')
+        g.create(P + '.sa')
+        g.advance(rng.choice([MS, SEC, 4 * SEC]))
+        g.ops.append({'op': 'query', 'path': 'probe_buf.py', 'project': g.project,
+                      'code': 'from %s.sa import func as f2\nf2(1)\nimport %s.sa\n%s.sa.func\nfrom %s import sa as s3\ns3.\n' % (P, P, P, P),
+                      'probes': [{'m': 'get_signatures', 'l': 2, 'c': 3}, {'m': 'infer', 'l': 4, 'c': len(P) + 6},
+                                 {'m': 'complete', 'l': 6, 'c': 3},
+                                 {'m': 'goto', 'l': 4, 'c': len(P) + 6, 'kw': {'follow_imports': True}}]})
     for _ in range(n_mut):
         r = rng.random()
         if r < 0.55:
